@@ -1,5 +1,6 @@
 """C11 — search-space enumeration is exact: every valid DNA once, nothing else."""
 import itertools
+import math
 import random
 
 import pyglove as pg
@@ -26,6 +27,7 @@ ASSUMPTIONS = [
 BUDGET = {'quick': 200, 'thorough': 16000}
 EXHAUSTIVE_DOMAINS = {
     'shapes2': 'all shapes with <=2 decision points, k<=3, <=3 candidates, sub-space at first or last candidate, reference size<=24 (thorough: <=80)',
+    'float_ranges': 'float decision points over 10 lower bounds x widths {0, 1 ulp, 0.5, 3} x scales {None, linear, log, rlog}, alone and under a 2-of multi-choice (sampler half)',
     'shapes3': 'thorough only: every 9th shape with <=3 decision points and reference size<=80',
 }
 
@@ -36,7 +38,7 @@ def strategy(tier):
       'shape': shape,
       'seeds': st.lists(st.integers(0, 10 ** 6), min_size=1, max_size=4),
       'corrupt': st.lists(st.tuples(st.integers(0, 50), st.integers(0, 20), st.sampled_from(
-          ['+1', '-1', 'neg', 'n', 'swap', 'dup', 'drop', 'extra', 'float', 'str', 'none'])).map(list), max_size=6),
+          ['+1', '-1', 'neg', 'n', 'swap', 'dup', 'drop', 'extra', 'wrap', 'value', 'float', 'str', 'none'])).map(list), max_size=6),
   })
 
 
@@ -49,10 +51,61 @@ def exhaustive(tier):
         continue
       if genospec.size(s, 400) <= limit:
         yield {'shape': s, 'seeds': [1, 2], 'corrupt': 'all'}
-  out = {'shapes2': wrap(genospec.enumerate_shapes(2))}
+  def float_ranges():
+    for lo in (0.1, 0.3, 3.0, 1e-3, 10.0, 7.0, 0.5, 1.0, -0.7, 0.0):
+      for w in (0, 'ulp', 0.5, 3):
+        hi = lo if w == 0 else (math.nextafter(lo, math.inf) if w == 'ulp' else lo + w)
+        for scale in (None, 'linear', 'log', 'rlog'):
+          if scale in ('log', 'rlog') and lo <= 0:
+            continue
+          f = {'t': 'float', 'lo': lo, 'hi': hi}
+          if scale:
+            f['scale'] = scale
+          yield {'shape': {'t': 'space', 'e': [f]}, 'seeds': [1, 2, 3], 'corrupt': []}
+          yield {'shape': {'t': 'space', 'e': [{'t': 'choices', 'k': 2, 'distinct': False, 'sorted': False, 'c': [
+              {'t': 'space', 'e': [f]}, {'t': 'space', 'e': []}]}]}, 'seeds': [1, 2, 3, 4], 'corrupt': []}
+  out = {'shapes2': wrap(genospec.enumerate_shapes(2)), 'float_ranges': float_ranges()}
   if tier == 'thorough':
     out['shapes3'] = wrap(genospec.enumerate_shapes(3), 9)
   return out
+
+
+def _walk_floats(shape, dna):
+  """First (value, lo, hi, scale) of a float decision outside its range; 'mismatch' if the DNA has another layout."""
+  def dp(e, d, subs=None):
+    if e['t'] == 'float':
+      v = d.value
+      if isinstance(v, bool) or not isinstance(v, float) or not e['lo'] <= v <= e['hi']:
+        return (v, e['lo'], e['hi'], e.get('scale'))
+      return None
+    if e['t'] != 'choices':
+      return None
+    if subs is None:
+      subs = [d] if e['k'] == 1 else list(d.children)
+    if len(subs) != e['k']:
+      return 'mismatch'
+    for sub in subs:
+      if isinstance(sub.value, bool) or not isinstance(sub.value, int) or not 0 <= sub.value < len(e['c']):
+        return 'mismatch'
+      r = space(e['c'][sub.value], list(sub.children))
+      if r:
+        return r
+    return None
+
+  def space(s, ds):
+    if len(s['e']) == 1 and s['e'][0]['t'] == 'choices' and s['e'][0]['k'] >= 2 and len(ds) == s['e'][0]['k']:
+      # a sub-space that is one multi-choice: its sub-choices hang directly under the parent decision
+      return dp(s['e'][0], None, ds)
+    if len(ds) != len(s['e']):
+      return 'mismatch'
+    for e, d in zip(s['e'], ds):
+      r = dp(e, d)
+      if r:
+        return r
+    return None
+  if len(shape['e']) == 1:
+    return dp(shape['e'][0], dna)
+  return space(shape, list(dna.children))
 
 
 def _corruptions(member, how, pos, arg, n_at):
@@ -77,8 +130,8 @@ def _corruptions(member, how, pos, arg, n_at):
     m[j] = m[i]
   elif how == 'drop':
     del m[i]
-  elif how == 'extra':
-    m.insert(i, arg % 3)
+  elif how in ('extra', 'wrap', 'value'):
+    m.insert(i, arg % 3)      # ('wrap' / 'value' act on the tree, see route 3; the flat route sees an extra number)
   elif how == 'float':
     m[i] = float(m[i]) + 0.5
   elif how == 'bool':
@@ -126,6 +179,13 @@ def execute(case):
       except Exception as e:   # pylint: disable=broad-except
         return res.violate('random_dna(seed=%r) of %r is rejected by validate: %r' % (sd, spec, e),
                            law='random-not-valid', **sig)
+      # membership from the definition, not from validate: every float lies in its closed range
+      bad = _walk_floats(shape, d)
+      if bad == 'mismatch':
+        res.label('walk-mismatch')
+      elif bad:
+        return res.violate('random_dna(seed=%r) has float %r outside [%r, %r] (scale=%r)' % ((sd,) + bad),
+                           law='random-float-out-of-range', scale=str(bad[3]), **sig)
     return res
   cap = 400
   n_ref = genospec.size(shape, cap)
@@ -201,7 +261,7 @@ def execute(case):
   corr = case.get('corrupt', [])
   if corr == 'all':
     corr = [[mi, p, how] for mi, p in ((0, 0), (len(ref) // 2, 1), (len(ref) - 1, 2))
-            for how in ('+1', '-1', 'neg', 'n', 'swap', 'dup', 'drop', 'extra', 'float', 'none')]
+            for how in ('+1', '-1', 'neg', 'n', 'swap', 'dup', 'drop', 'extra', 'wrap', 'value', 'float', 'none')]
   for item in corr:
     if not (isinstance(item, list) and len(item) == 3):
       raise core.InvalidCase(case)
@@ -222,7 +282,7 @@ def execute(case):
       continue
     res.label('corrupt:' + how)
     # route 3: structural corruption of a spec-less DNA tree (extra / missing child), then validate and use_spec
-    if how in ('extra', 'drop'):
+    if how in ('extra', 'drop', 'wrap', 'value'):
       try:
         raw = pg.from_json(pg.to_json(pg.DNA.from_numbers(list(member), spec)))
         nodes_ = []
@@ -234,15 +294,28 @@ def execute(case):
         walk2(raw)
         nd = nodes_[pos % len(nodes_)]
         kids = list(nd.children)
+        newval = None
         if how == 'extra':
           kids.append(pg.DNA(mi % 2))
+        elif how == 'wrap':
+          # one more level: the children hang under a single new node that carries a choice value
+          kids = [pg.DNA(mi % 2, [k.clone(deep=True) for k in kids])] if kids else None
+        elif how == 'value':
+          # a value on a node that carries none (root of several elements, list of sub-choices)
+          if nd.value is None and kids:
+            newval = mi % 2
+          else:
+            kids = None
         elif kids:
           kids = kids[:-1]
         else:
           kids = None
         if kids is not None:
           with pg.as_sealed(False):
-            nd.rebind(children=kids, skip_notification=True)
+            if newval is not None:
+              nd.rebind(value=newval, skip_notification=True)
+            else:
+              nd.rebind(children=kids, skip_notification=True)
           try:
             flat = tuple(raw.to_numbers())
           except Exception:   # pylint: disable=broad-except
